@@ -12,6 +12,7 @@
                      also the separator in front of it.
 -/
 import CstructModel.DefParser
+import Proofs.Spec.C13
 
 namespace Cstruct.DefParser.C13
 open Cstruct.DefParser
@@ -200,6 +201,127 @@ def simLexemes : List (Lexeme × List Char) → List (Lexeme × List Char) → B
 
 /-- the same lexemes with other separators -/
 abbrev sameLexemes (l l' : List (Lexeme × List Char)) : Prop := l.map (·.1) = l'.map (·.1)
+
+-- decidable equality of declarations (nested inductive types: written out), for the concrete examples
+mutual
+def decT : (a b : TypeRef) → Decidable (a = b)
+  | .none, .none => isTrue rfl
+  | .name n, .name m => if h : n = m then isTrue (h ▸ rfl) else isFalse (fun e => h (by cases e; rfl))
+  | .structRef n, .structRef m => if h : n = m then isTrue (h ▸ rfl) else isFalse (fun e => h (by cases e; rfl))
+  | .inline a, .inline b => match decA a b with
+    | isTrue h => isTrue (h ▸ rfl)
+    | isFalse h => isFalse (fun e => h (by cases e; rfl))
+  | .none, .name _ | .none, .structRef _ | .none, .inline _ | .name _, .none | .name _, .structRef _ | .name _, .inline _
+  | .structRef _, .none | .structRef _, .name _ | .structRef _, .inline _ | .inline _, .none | .inline _, .name _ | .inline _, .structRef _ =>
+    isFalse (fun e => by cases e)
+def decA : (a b : Aggr) → Decidable (a = b)
+  | .mk u t fs ns, .mk u' t' fs' ns' =>
+    if h1 : u = u' ∧ t = t' ∧ ns = ns' then
+      match decFs fs fs' with
+      | isTrue h => isTrue (by obtain ⟨rfl, rfl, rfl⟩ := h1; rw [h])
+      | isFalse h => isFalse (fun e => h (by cases e; rfl))
+    else isFalse (fun e => h1 (by cases e; exact ⟨rfl, rfl, rfl⟩))
+def decF : (a b : FieldDecl) → Decidable (a = b)
+  | .anon t, .anon t' => match decT t t' with
+    | isTrue h => isTrue (h ▸ rfl)
+    | isFalse h => isFalse (fun e => h (by cases e; rfl))
+  | .named t d, .named t' d' =>
+    if h1 : d = d' then
+      match decT t t' with
+      | isTrue h => isTrue (by rw [h, h1])
+      | isFalse h => isFalse (fun e => h (by cases e; rfl))
+    else isFalse (fun e => h1 (by cases e; rfl))
+  | .anon _, .named _ _ | .named _ _, .anon _ => isFalse (fun e => by cases e)
+def decFs : (a b : List FieldDecl) → Decidable (a = b)
+  | [], [] => isTrue rfl
+  | f :: r, f' :: r' => match decF f f', decFs r r' with
+    | isTrue h, isTrue h' => isTrue (by rw [h, h'])
+    | isFalse h, _ => isFalse (fun e => h (by cases e; rfl))
+    | _, isFalse h => isFalse (fun e => h (by cases e; rfl))
+  | [], _ :: _ | _ :: _, [] => isFalse (fun e => by cases e)
+end
+instance : DecidableEq TypeRef := decT
+instance : DecidableEq Aggr := decA
+instance : DecidableEq FieldDecl := decF
+deriving instance DecidableEq for Decl
+deriving instance DecidableEq for OTok
+
+/-- `k` iterations of the loop of `parse`: the declarations and the tokens that are left -/
+def declsN : Nat → List OTok → Except PErr (List Decl × List OTok)
+  | 0, toks => .ok ([], toks)
+  | k + 1, toks =>
+    match declH toks with
+    | .error e => .error e
+    | .ok (d, r) =>
+      match declsN k r with
+      | .error e => .error e
+      | .ok (ds, r') => .ok (d :: ds, r')
+
+/-- the last lexeme closes a top-level declaration: `;`, a `#[...]` flag, or a `#define` line with its line break -/
+def endsTop (l : List (Lexeme × List Char)) : Bool :=
+  match l.getLast? with
+  | some (.semi, _) => true
+  | some (.config _, _) => true
+  | some (.define .., s) => !s.isEmpty
+  | _ => false
+
+/-- `l1` ends at a boundary between top-level definitions with respect to what follows (`next`: the first token of the
+    continuation, if any): the handlers, run on the tokens of `l1` followed by that token alone, complete exactly the
+    declarations `ds` and leave that token untouched.  In terms of the text: `l1` ends behind the `;` that closes a top-level
+    struct / union / typedef / enum / flag, behind a `#[...]` flag, a `$lookup` or the line break of a `#define`, AND the
+    continuation does not start with something the last handler would still take: a `;` (a struct definition takes one extra
+    `;`), a declarator or a name list (behind `typedef struct {...};` they would become the typedef's names).  An unfinished
+    definition (`struct S { uint8 a;` without `}`, a bare `typedef`) does not end at a boundary. -/
+def boundary (l1 : List (Lexeme × List Char)) (ds : List Decl) (next : Option OTok) : Prop :=
+  match next with
+  | none => True
+  | some e => declsN ds.length ((toks l1).map Tok.obs ++ [e]) = .ok (ds, [e])
+
+instance (l1 : List (Lexeme × List Char)) (ds : List Decl) (next : Option OTok) : Decidable (boundary l1 ds next) := by
+  cases next with
+  | none => exact isTrue trivial
+  | some e => exact inferInstanceAs (Decidable (declsN ds.length ((toks l1).map Tok.obs ++ [e]) = .ok (ds, [e])))
+
+/-- the first token of a lexeme list, as the handlers see it -/
+def firstObs (l : List (Lexeme × List Char)) : Option OTok := ((toks l).map Tok.obs).head?
+
+/-- a complete top-level definition text: the text, its lexemes, its declarations -/
+structure TopDef where
+  text : List Char
+  lex : List (Lexeme × List Char)
+  decls : List Decl
+
+/-- the text consists of exactly these lexemes (no comment is left open, no leading blanks), ends a top-level declaration, and
+    parses to these declarations without error -/
+def TopDef.ok (d : TopDef) : Prop :=
+  Cstruct.Parser.Closed d.text (render d.lex) ∧ adm false d.lex = true ∧ endsTop d.lex = true ∧ parseDecls d.text = (d.decls, none)
+
+/-- `d` ends at a boundary with respect to a continuation `d'` -/
+def TopDef.before (d d' : TopDef) : Prop := boundary d.lex d.decls (firstObs d'.lex)
+
+instance (d d' : TopDef) : Decidable (d.before d') := inferInstanceAs (Decidable (boundary d.lex d.decls (firstObs d'.lex)))
+
+-- ------------------------------------------------------------------------------------------------ registration order
+open Cstruct.Parser in
+/-- what `_typedef` does with `typedef target name;`: the target is resolved NOW (ResolveError = `none` if it is not known yet),
+    the name is bound to the resulting type object -/
+def regTypedef (tbl : List (String × Bind)) (reg : String × String) : Option (List (String × Bind)) :=
+  match resolveB tbl 10 reg.2 with
+  | none => none
+  | some id => addType tbl reg.1 (.type id)
+
+/-- a sequence of typedefs, in text order -/
+def regAll (tbl : List (String × Cstruct.Parser.Bind)) : List (String × String) → Option (List (String × Cstruct.Parser.Bind))
+  | [] => some tbl
+  | r :: rest => match regTypedef tbl r with
+    | none => none
+    | some tbl' => regAll tbl' rest
+
+open Cstruct.Parser in
+/-- independent registrations over a table: the names are pairwise distinct and not bound yet, and every target is known to
+    the table as it is BEFORE the sequence — so no registration of the sequence refers to a name the sequence introduces -/
+def RegOK (tbl : List (String × Bind)) (regs : List (String × String)) : Prop :=
+  (regs.map (·.1)).Nodup ∧ (∀ p ∈ regs, lookupB p.1 tbl = none) ∧ (∀ p ∈ regs, ∃ id, resolveB tbl 10 p.2 = some id)
 
 /-- the token classes whose regex ends in `\s*` (DEFINE) or `\s*(?=;)` (ENUM, DEFS, NAME): they swallow the blanks behind them -/
 def _root_.Cstruct.DefParser.TK.swallows : TK → Bool
